@@ -751,6 +751,9 @@ def read_case(u, case, path, fa, key, data, dtype_arg):
     if acc == "file":
         with open(path, "rb") as f:
             return u.read_signal(f, force_as=fa, **kw)
+    if acc == "fdfile":      # an open binary stream made from a file DESCRIPTOR: its `.name` is an int, not a path
+        with os.fdopen(os.open(path, os.O_RDONLY), "rb") as f:
+            return u.read_signal(f, force_as=fa, **kw)
     if acc == "offset":      # the record is not at the start of the (seekable) stream: the stream is positioned at its first byte
         return u.read_signal(common.offset_stream(data), force_as=fa, **kw)
     if acc == "second":      # two records written one after the other; the first has been read, now the second
@@ -991,7 +994,7 @@ def special_roundtrips(ctx, u, root):
     first = io.BytesIO()
     np.save(first, np.arange(5, dtype=np.int64))
     for c, extra in (("npy", {}), ("wav", dict(width=2, channels=2, n=9)), ("sph", dict(coding="pcm", channels=1, n=100, order="01"))):
-        for acc in ("offset", "second"):
+        for acc in ("offset", "second", "fdfile"):
             k += 1
             case = dict(kind="roundtrip", container=c, seed=950 + k, access=acc, **extra)
             if c == "npy":
